@@ -130,11 +130,22 @@ pub fn bfs(sc: &dyn Scenario, rep: &Reporter, cfg: &SearchCfg, samples: &Samples
             stats.fixpoint = true;
             break;
         }
-        // expand every node of this level in parallel
-        let children: Vec<Vec<(usize, u128, Node)>> = frontier
-            .par_iter()
+        // expand every (node, action) pair of this level in parallel
+        let tasks: Vec<(usize, usize, Action, bool)> = frontier
+            .iter()
             .enumerate()
-            .map(|(pi, node)| {
+            .flat_map(|(pi, node)| {
+                sc.actions(&node.model, &node.stale, depth)
+                    .into_iter()
+                    .enumerate()
+                    .map(move |(ai, (a, expand))| (pi, ai, a, expand))
+            })
+            .collect();
+        let children: Vec<Vec<(usize, u128, Node)>> = tasks
+            .par_iter()
+            .map(|(pi, ai, a, expand)| {
+                let (pi, ai, expand) = (*pi, *ai, *expand);
+                let node = &frontier[pi];
                 let mut out = Vec::new();
                 if stop.load(Ordering::Relaxed) {
                     return out;
@@ -145,11 +156,15 @@ pub fn bfs(sc: &dyn Scenario, rep: &Reporter, cfg: &SearchCfg, samples: &Samples
                         return out;
                     }
                 }
-                let acts = sc.actions(&node.model, &node.stale, depth);
-                for (ai, (a, expand)) in acts.into_iter().enumerate() {
+                {
                     let mut hist = node.hist.clone();
-                    hist.push(a);
+                    hist.push(a.clone());
                     let (mut r, res) = run_history(sc, &hist, false);
+                    for (key, what) in r.known_hits.drain(..) {
+                        let hl = hist.len() as u64;
+                        let ht: Vec<String> = hist.iter().map(|a| a.text()).collect();
+                        rep.violation(&key, hl, || json!({"scenario": sc.name(), "history_text": ht, "what": what}));
+                    }
                     if expand {
                         transitions.fetch_add(1, Ordering::Relaxed);
                     } else {
@@ -165,7 +180,13 @@ pub fn bfs(sc: &dyn Scenario, rep: &Reporter, cfg: &SearchCfg, samples: &Samples
                             let stale = r.stale.clone();
                             if sc.final_check_everywhere() {
                                 finals.fetch_add(1, Ordering::Relaxed);
-                                if let Err(v) = sc.final_check(&mut r, depth + 1) {
+                                let fc = sc.final_check(&mut r, depth + 1);
+                                for (key, what) in r.known_hits.drain(..) {
+                                    let hl = hist.len() as u64;
+                                    let ht: Vec<String> = hist.iter().map(|a| a.text()).collect();
+                                    rep.violation(&key, hl, || json!({"scenario": sc.name(), "history_text": ht, "what": what}));
+                                }
+                                if let Err(v) = fc {
                                     report(rep, sc, &hist, &r, &v);
                                 }
                             }
